@@ -122,6 +122,32 @@ let rec dump_value b (v : value) =
 let dialect_of (name : Stdlib.String.t) : sqltype =
   try List.find (fun d -> string_of_coq (sqltype_name d) = name) all_sqltypes with Not_found -> failwith ("bad dialect " ^ name)
 
+(* ---- specification expressions (prefix notation) ---- *)
+let rec parse_sexpr (ws : Stdlib.String.t list) : sexpr * Stdlib.String.t list =
+  let two r = let (a, r1) = parse_sexpr r in let (b, r2) = parse_sexpr r1 in (a, b, r2) in
+  let rec many n r = if n = 0 then ([], r) else let (a, r1) = parse_sexpr r in let (l, r2) = many (n - 1) r1 in (a :: l, r2) in
+  match ws with
+  | "col" :: n :: r -> (SCol (None, str_of_word n), r)
+  | "tcol" :: t :: n :: r -> (SCol (Some (str_of_word t), str_of_word n), r)
+  | "lit" :: s :: r -> (SLit (str_of_word s), r)
+  | "un" :: o :: r -> let (a, r1) = parse_sexpr r in
+      (SUn ((match o with "-" -> U_MINUS | "+" -> U_PLUS | "~" -> U_TILDE | _ -> U_BANG), a), r1)
+  | "bin" :: o :: r -> let (a, b, r2) = two r in
+      (SBin ((match o with "^" -> B_XOR | "*" -> B_MUL | "/" -> B_DIV | "%" -> B_MOD | "+" -> B_ADD | "-" -> B_SUB | "<<" -> B_SHL
+                          | ">>" -> B_SHR | "&" -> B_AND | _ -> B_OR), a, b), r2)
+  | "kw" :: k :: neg :: r -> let (a, b, r2) = two r in
+      (SKw ((match k with "like" -> K_LIKE | "rlike" -> K_RLIKE | "regexp" -> K_REGEXP | _ -> K_IS), neg = "1", a, b), r2)
+  | "btw" :: neg :: r -> let (a, r1) = parse_sexpr r in let (b, c, r3) = two r1 in (SBetween (neg = "1", a, b, c), r3)
+  | "in" :: neg :: n :: r -> let (a, r1) = parse_sexpr r in let (l, r2) = many (int_of_string n) r1 in (SIn (neg = "1", a, l), r2)
+  | "cmp" :: o :: r -> let (a, b, r2) = two r in
+      (SCmp ((match o with "=" -> C_EQ | "!=" -> C_NEQ | "<" -> C_LT | "<=" -> C_LTE | ">" -> C_GT | ">=" -> C_GTE | _ -> C_SAFE_EQ), a, b), r2)
+  | "not" :: r -> let (a, r1) = parse_sexpr r in (SNot a, r1)
+  | "and" :: r -> let (a, b, r2) = two r in (SAnd (a, b), r2)
+  | "xor" :: r -> let (a, b, r2) = two r in (SXor (a, b), r2)
+  | "or" :: r -> let (a, b, r2) = two r in (SOr (a, b), r2)
+  | "fn" :: f :: n :: r -> let (l, r2) = many (int_of_string n) r in (SFunc (str_of_word f, l), r2)
+  | _ -> failwith "bad sexpr"
+
 let ints_of words = List.map (fun w -> n_of_int (int_of_string w)) words
 
 let handle (line : Stdlib.String.t) : Stdlib.String.t =
@@ -157,6 +183,14 @@ let handle (line : Stdlib.String.t) : Stdlib.String.t =
          (match parse_text (mb = "1") (coq_of_string entry) (dialect_of dialect) (ints_of rest) with
           | Ok v -> let b = Buffer.create 512 in Buffer.add_string b "OK "; dump_value b v; Buffer.contents b
           | Err e -> "ERR " ^ err_name e)
+       with Failure m -> "BAD-REQUEST " ^ m)
+  | "EMIT" :: hive :: cs :: "|" :: rest ->
+      (try
+         let choices = if cs = "-" then [] else List.map (fun x -> nat_of_int (int_of_string x)) (Stdlib.String.split_on_char ',' cs) in
+         let (e, _) = parse_sexpr rest in
+         let (text, _) = emit (hive = "1") e choices in
+         let b = Buffer.create 256 in dump_value b (canon (embed e));
+         (if text = [] then "-" else cps text) ^ " | " ^ Buffer.contents b
        with Failure m -> "BAD-REQUEST " ^ m)
   | "CURSOR" :: rest ->
       (try
